@@ -37,6 +37,20 @@ checks = [
         W_NOTE + "; decides selium's wiring of third-party compressors, not the compressors themselves", "exhaustive enumeration of a finite configuration/input grid with an identity oracle", "DESIGN.md §4 C14"),
 ]
 
+R_NOTE = "bounded: the listed topologies, script lengths and deviation bounds; mock peers obey the futures Sink/Stream contracts and wake the stored waker when unblocked; StreamMap start index and Router hash order are owned through the vendored tokio-stream seam and hook H1; router-internal instants (adoption, binding) are bracketed by observable touches, never guessed"
+R_TECH = "stateless deviation-bounded DFS (model checking) of the real router future under a controlled wake-only executor and mock peers"
+def rtext(what):
+    return "exhaustive enumeration, up to a deviation bound that is iterated per family, of every environment behaviour of the real router future (" + what + "); every execution is the implementation itself, polled only on wake-up, checked against a reference model at quiescence"
+checks += [
+    chk("C01", "routerlab", "model_checking", rtext("registration/frame arrival orders, ready/pending+wake of every subscriber sink operation, publisher delays, ends and idleness, StreamMap start index") + "; list-model oracle: each healthy subscriber holds a contiguous suffix of the consumption log starting no later than its adoption, fully flushed", R_NOTE, R_TECH, "DESIGN.md §3 C01"),
+    chk("C02", "routerlab", "model_checking", rtext("request interleavings of 1-3 requestors with colliding request ids and forged tags, replier bind time, pending/wake on every sink and stream, all Router hash orders, adversarial reply scripts") + "; oracle: requests at most once / in order / correctly tagged / exactly once under a stable replier, each valid reply exactly once to its requestor and nowhere else, tag stripped, flushed", R_NOTE, R_TECH, "DESIGN.md §3 C02"),
+    chk("C08", "routerlab", "model_checking", rtext("the C01/C02/C10 families with error answers enabled on every sink operation and error items / early ends on every stream, plus FanoutMany and Router driven directly with every answer vector") + "; oracle: no panic, healthy peers keep their full C01/C02 obligations, a failed replier is unbound and the next one serves", R_NOTE + "; at most one injected error per mock half", R_TECH, "DESIGN.md §3 C08"),
+    chk("C09", "routerlab", "model_checking", rtext("all no-fault families of C01/C02/C10/C16 plus one-sided topologies (nobody, only subscribers, only publishers, only repliers, only requestors, replier leaves)") + "; oracles: step budget per poll (spin), 400-poll horizon (self-wake livelock), and a probe poll at every quiescent point that must make no observable progress (lost wake-up)", R_NOTE, R_TECH, "DESIGN.md §3 C09"),
+    chk("C10", "routerlab", "model_checking", rtext("1-3 repliers registering at every point of an exchange, departures of the bound one, pending/wake of the rejected replier's sink, two late repliers in one poll") + "; oracle: never two bound, a rejection is justified by an earlier still-bound replier and consists of exactly one replier-already-bound error followed by a completed close, a replier registering after the bound one ended is bound and served", R_NOTE, R_TECH, "DESIGN.md §3 C10"),
+    chk("C11", "routerlab", "model_checking", rtext("every non-Message frame kind as 1st/2nd request or as a reply, requests that fit the frame limit only before the routing tag is added, all 8 kinds through the pub/sub router, each followed by a well-formed exchange") + "; oracle: no panic and the following exchange satisfies C01/C02", R_NOTE + "; router half only: the server's open/registration path (server.rs, topic/mod.rs) is not yet covered by a check", R_TECH, "DESIGN.md §3 C11"),
+    chk("C16", "routerlab", "model_checking", rtext("close of the registration channel at every point of the pub/sub and req/rep families (idle, item buffered, flush pending, one side only, rejected replier pending) followed by every pending/wake outcome of the sinks") + "; oracle: the router future completes once every sink can accept data, and every frame taken from a publisher was handed over and flushed to every healthy subscriber first", R_NOTE + "; router half only: Server::shutdown (close_channel + join) is not yet driven by a check", R_TECH, "DESIGN.md §3 C16"),
+]
+
 pending = {
     "C01": "check under construction (engine R, routerlab)",
     "C02": "check under construction (engine R, routerlab)",
@@ -60,7 +74,7 @@ manifest = {
         "guard": "cargo feature `verif-hooks` of selium-server (off by default)",
         "enable": "engines/routerlab depends on selium-server with features = [\"verif-hooks\"]; every check runs `cargo build --release --offline -p <engine>` against /repo's working tree",
         "baseline_off_cmd": "cd /repo && cargo nextest run --workspace --no-fail-fast --test-threads 8 --offline || cargo test --workspace --no-fail-fast --offline",
-        "source_commits": [],
+        "source_commits": ["590c101"],
         "add_only": True,
     },
     "engines": [
